@@ -102,6 +102,9 @@ def orientation(prog, fi, e):
 
 
 def check(prog, run):
+    run.rule("R-orient", "no factor / sensitivity block is transposed on the strength of ONE of its extents (a square array that is already the right way round would be turned)", 0)
+    raw_ = prog.raw
+    astq.orientation_guess_rule(raw_, run, "R-orient", sorted(q_ for q_ in raw_.reachable([raw_.func(x_).qual for x_ in ("functions.ssi.build_hank", "functions.ssi.SSI_fast", "functions.ssi.SSI_poles")]) if q_ in raw_.functions))
     from . import C01
     C01.eigvec_rule(prog, run)          # the sensitivities use (left, right) eigenvectors by position
     run.rule("R-vec-order", "vectorisation order of the factor columns (producer) = order expected by the Kronecker forms of the propagation (consumer)", 3)
